@@ -92,7 +92,10 @@ C = dict(
     rule="plans = (a) every order type of (t,c,d,cok,dok) x level x downstream existence x way of asking, "
          "(b) complete histories of WriterReady.tla (two small configurations replayed exhaustively - shorter ones in the quick tier, there "
          "without overtaking operations, which come from a third configuration of 6-step histories filtered to the overtaking ones - "
-         "plus TLC -simulate for the large configuration, capped); non-trivial = at least one downstream call was recorded; distinct = distinct event sequences",
+         "plus TLC -simulate for the large configuration, capped), (c) the list / parent-object classes of WriterReq.tla, also after the drop of a "
+         "sibling object with a prefix-related name on the same writer (names containing '_'), and histories over two collections with "
+         "prefix-related names (directed d-sibling-*; thorough: the 6-step histories in which a partition operation follows the drop of the "
+         "other collection); non-trivial = at least one downstream call was recorded; distinct = distinct event sequences",
     assumptions=[
         "downstream = recording fake api.DataHandler (harness/wfake1) that models existence of databases/collections/partitions, "
         "remembers the source stamp of the create that made each object, fails before taking effect; drop of an absent object succeeds",
@@ -108,6 +111,8 @@ C = dict(
         "of its level succeeded or its own create of it took effect, until a newer drop of that object is recorded or the writer restarts; "
         "a request sent for an absent object that is neither known dropped at or after t nor known alive is a violation",
         "recorded drop times as understood by the contract: restart snapshot, then every drop that was sent downstream and ended well",
+        "name universe: the histories use the names of the cfg files (c1 / c1_x, d1 / d1_x, p1 / p1_x in the sibling plans); the list classes "
+        "draw names that may contain '_' with distinct first segments - no two record keys of a step / history are equal (C15_KEYCLASH)",
         "TLC exhaustiveness holds for the constants in the cfg files only",
     ],
 )
